@@ -107,12 +107,14 @@ class BaseManager:
     def basic_enter_room(self, sid, namespace, room, eio_sid=None):
         if eio_sid is None and namespace not in self.rooms:
             raise ValueError('sid is not connected to requested namespace')
+        if eio_sid is None:
+            # look the client up before the room is created, so that a
+            # session id that is not connected does not leave an empty room
+            eio_sid = self.rooms[namespace][None][sid]
         if namespace not in self.rooms:
             self.rooms[namespace] = {}
         if room not in self.rooms[namespace]:
             self.rooms[namespace][room] = bidict()
-        if eio_sid is None:
-            eio_sid = self.rooms[namespace][None][sid]
         self.rooms[namespace][room][sid] = eio_sid
 
     def basic_leave_room(self, sid, namespace, room):
